@@ -399,10 +399,40 @@ def r8(tree, prog, rep):
         key="C17.R8:connected-stop")
 
 
+def r9(tree, prog, rep):
+    """Manager.stop is an input that STOPPED / STOPPING do not declare: it is fired exactly once per Manager, by Dilator.stop (which
+    then waits for when_stopped()).  A Manager that stops itself makes that later stop() raise NoTransition before the
+    stoppedD callback is chained: close() never completes."""
+    M = prog.machine("Manager")
+    callers = []
+    for p in tree.paths():
+        if "/_dilation/" not in p:
+            continue
+        for fn_p, cname, fn in [(p, c, f) for (pp, c, f) in tree.all_functions() if pp == p]:
+            for c in ast.walk(fn):
+                if isinstance(c, ast.Call) and isinstance(c.func, ast.Attribute) and c.func.attr == "stop" and (
+                        (cname == "Manager" and is_self_attr(c.func, "stop")) or dotted(c.func) in ("self._manager.stop", "manager.stop")):
+                    callers.append((cname, fn.name, c, p))
+    ok = bool(callers)
+    for cname, fname, c, p in callers:
+        good = (cname, fname) == ("Dilator", "stop")
+        rep.check("C17.R9", "Manager.stop() is fired only by Dilator.stop (here %s.%s)" % (cname, fname), good, site(c, p),
+                  key="C17.R9:Manager.stop-caller:%s.%s" % (cname, fname),
+                  what="%s.%s stops the Manager itself: the Terminator's later Dilator.stop() fires `stop` in a state that does not declare it "
+                       "(NoTransition), stoppedD is never sent and close() hangs" % (cname, fname))
+    for st in M.states:
+        r = M.row(st, "stop")
+        if r is None and not M.states[st]["terminal"]:
+            rep.check("C17.R9", "Manager[%s] (non-terminal) declares stop" % st, st == "STOPPING", M.file, key="C17.R9:Manager[%s].stop" % st)
+    if not ok:
+        raise AnalysisError("no caller of Manager.stop found")
+
+
 def run(tree, rep, tier):
     prog = Program(tree)
     r1_r2(prog, rep)
     r8(tree, prog, rep)
+    r9(tree, prog, rep)
     r3(tree, prog, rep)
     r4(tree, rep)
     r5(tree, rep)
